@@ -42,5 +42,30 @@ func (f *Eval) Call(s *slip.Scope, args slip.List, depth int) (result slip.Objec
 	slip.CheckArgCount(s, depth, f, args, 1, 1)
 	result = slip.EvalArg(s, args, 0, depth+1)
 
-	return s.Eval(result, depth+1)
+	// The form may be data that is also held elsewhere such as a quoted list
+	// in a variable. Evaluating a list replaces the sub-forms in binding
+	// lists and clauses with compiled functions so a copy is evaluated and
+	// the data stays what it was.
+	return s.Eval(copyForm(result, nil), depth+1)
+}
+
+// copyForm returns a copy of a form that is about to be evaluated. A list
+// that contains itself is data, not code, it is left as it is where it is
+// met again inside itself. The path holds the lists being copied.
+func copyForm(v slip.Object, path []*slip.Object) slip.Object {
+	list, ok := v.(slip.List)
+	if !ok || len(list) == 0 {
+		return v
+	}
+	for _, p := range path {
+		if p == &list[0] {
+			return v
+		}
+	}
+	path = append(path, &list[0])
+	dup := make(slip.List, len(list))
+	for i, e := range list {
+		dup[i] = copyForm(e, path)
+	}
+	return dup
 }
